@@ -243,9 +243,14 @@ def lattice(tier):
             for d in (delays[:2] if big else delays):
                 cells.append((nw, [(n, list(f))], d))
     for nw, n1, n2 in two:
+        # two consecutive calls on one ParallelMap: failures in both calls at once only for small
+        # calls (measured: 3 workers, calls of 3+3 tasks, one feeder delay = 56k executions per
+        # cell, times 100 failure combinations)
         for f1 in failsets(n1, 1):
             for f2 in failsets(n2, 1):
-                for d in delays[:2]:
+                if n1 + n2 > 4 and f1 and f2:
+                    continue
+                for d in (delays[:2] if n1 + n2 < 6 else delays[:1]):
                     cells.append((nw, [(n1, list(f1)), (n2, list(f2))], d))
     return cells
 
